@@ -27,6 +27,14 @@ the reception of the next data packet / around its end / only after the handshak
 the middle, at the last byte, exact fit); with the consumer blocked the packet length is also chosen so that
 the FIFO runs full exactly at the last byte (one byte too many) or fits exactly.
 
+Added after the coverage audit: max_packet_size 512 in half of the high-speed sessions; 4 % of the new data packets are
+over-long (mps+1 .. 2*mps bytes, good CRC; judged only for "ACK => whole payload delivered exactly once, otherwise
+nothing" — the response itself, the flags and the next packet's `first` are unjudged); a repeated-toggle packet must be
+ACKed (a NAK is `nak_for_repeated_toggle`, USB 2.0 8.6.3); bin `ack_with_less_than_mps_free` shows that short packets
+are accepted and delivered into a buffer that could not take a max-size packet; the occupancy interval that tolerated
+the (now fixed) fs60 overflow finding is gone, so PING / NAK answers are judged against the exact occupancy in every mode.
+DATA2/MDATA are still not sent (the statement does not say how a bulk endpoint treats them).
+
 Monitors: UTMI transmit capture of the host model (the handshakes really put on the wire) and a per-cycle
 monitor of stream valid/ready/payload/first/last (a beat is valid & ready).
 
